@@ -24,6 +24,14 @@ func builtinGlobalEval(call FunctionCall) Value {
 		// Not a direct call to eval, so we enter the global ExecutionContext
 		rt.enterGlobalScope()
 		defer rt.leaveScope()
+	} else if scope := rt.scope; scope != nil {
+		// A direct eval runs in the calling context, but it is a nesting level all the
+		// same: eval code that evals itself must run into the stack depth limit.
+		if rt.stackLimit != 0 && scope.depth+1 >= rt.stackLimit {
+			panic(rt.panicRangeError("Maximum call stack size exceeded"))
+		}
+		scope.depth++
+		defer func() { scope.depth-- }()
 	}
 	returnValue := rt.cmplEvaluateNodeProgram(program, true)
 	if returnValue.isEmpty() {
